@@ -208,3 +208,106 @@ def engine_calls(fi: bool, fm: bool, fs: bool, upper: bool, other: bool, no_flag
     else:
         assert isinstance(r, list)
     hlib.done()
+
+
+# ---- sequences of calls (state that survives a failing call) ----------------------------------------------------------
+def call_sequence(f1: int, f3: int, f4: int, r1: bool, r3: bool) -> None:
+    """
+    pre: 0 <= f1 <= 2 and 0 <= f3 <= 2 and 0 <= f4 <= 2
+    post: True
+    """
+    # four consecutive builtin calls; in any of the first three the engine may refuse the pattern (raises its error
+    # after it was entered): every engine entry of EVERY call still carries a timeout in [0, 0.1]
+    hlib.enter(locals())
+    names = ['match', 'match_groups', 'match_all']
+    hits = 1
+    f1 = hlib.concrete(f1, 0, 2)
+    plan_ = [(f1, True if r1 else False), (f1, True if r1 else False),          # the same call twice (both refused, or neither)
+             (hlib.concrete(f3, 0, 2), True if r3 else False), (hlib.concrete(f4, 0, 2), False)]
+    t0 = functions.REGEX_TIMEOUT
+    logs = []
+    for fi, rej in plan_:
+        stub = RegexStub(hits)
+        saved = _install(stub, Clock([0.0, 0.0, 0.0]))
+        first = getattr(functions, 'regex', None)
+        if rej and isinstance(first, RegexStub):
+            mine = RegexStub(hits, stub.log)
+            mine.rejects = True
+            functions.regex = mine
+        try:
+            try:
+                FUNCTIONS[names[fi]]('abcdefgh', 'a(b)?', 'i')
+            except Exception:
+                pass
+        finally:
+            _restore(saved)
+        logs.append((names[fi], list(stub.log)))
+    functions.REGEX_TIMEOUT = t0          # (paths are independent: undo whatever the calls left behind)
+    for k, (nm, log) in enumerate(logs):
+        for (what, has, val) in log:
+            assert has and val is not None, "call %d (%s) reaches a regular-expression engine (%s) without a timeout" % (k + 1, nm, what)
+            assert 0 <= val <= 0.1, "call %d (%s) passes timeout %r after earlier calls failed: not small" % (k + 1, nm, val)
+    hlib.done()
+
+
+# ---- Python-level work around the engine call ---------------------------------------------------------------------------
+class StepBudget(Exception):
+    pass
+
+
+SIZES = [0, 50, 65535, 65537, 100000]
+
+
+def python_steps(pi: int, si: int, twice: bool) -> None:
+    """
+    pre: 0 <= pi < 5 and 0 <= si < 5
+    post: True
+    """
+    # with the engine stubbed, the number of Python source lines executed inside smartquery/functions.py by one builtin
+    # call is at most a constant plus a multiple of the lengths of pattern and subject (no unbounded or super-linear
+    # Python-level phase before / after the engine call).  Sizes come from a pool that brackets 2**16 and reaches 10**5.
+    hlib.enter(locals())
+    name = hlib.PARAM["fn"]
+    pi, si = hlib.concrete(pi, 0, 4), hlib.concrete(si, 0, 4)
+    hlib.assume(si in (0, 4))
+    twice = True if twice else False
+    over = None
+    with hlib.native():
+        import sys as _sys
+        pattern, subject = 'ab|' * (SIZES[pi] // 3) + 'x' * (SIZES[pi] % 3), 'a' * SIZES[si]
+        cap = 3000 + 4 * (len(pattern) + len(subject))
+        count = [0]
+        mon = _sys.monitoring
+        TOOL = 3
+        fname = functions.__file__
+
+        def on_line(code, line):
+            if code.co_filename == fname:
+                count[0] += 1
+                if count[0] > cap:
+                    raise StepBudget()
+            else:
+                return mon.DISABLE
+        stub = RegexStub(1)
+        saved = _install(stub, Clock([0.0, 0.0, 0.0]))
+        mon.use_tool_id(TOOL, "sqv-steps")
+        try:
+            mon.register_callback(TOOL, mon.events.LINE, on_line)
+            mon.set_events(TOOL, mon.events.LINE)
+            for _k in range(2 if twice else 1):
+                count[0] = 0
+                try:
+                    FUNCTIONS[name](subject, pattern, 'i')
+                except StepBudget:
+                    over = (len(pattern), len(subject), cap)
+                    break
+                except Exception:
+                    pass
+        finally:
+            mon.set_events(TOOL, 0)
+            mon.register_callback(TOOL, mon.events.LINE, None)
+            mon.free_tool_id(TOOL)
+            mon.restart_events()
+            _restore(saved)
+    assert over is None, "%s executes more than %d Python lines in functions.py for a pattern of %d and a subject of %d characters (engine stubbed): an unbounded or super-linear phase outside the regex timeout" % (name, over[2] if over else 0, over[0] if over else 0, over[1] if over else 0)
+    hlib.done()
